@@ -10,6 +10,9 @@
    are placed on the same kind of timeline (margins >= 60 s), verifies the result with the REAL
    segverifier / trust.Verifier over a real in-memory trust DB, probes signature coverage by
    altering info / earlier entries / earlier signatures, and re-computes MACs independently.
+   Concurrent mode: the REAL Originator.Run and Propagator.Run (one goroutine per interface and per
+   beacon, all sharing one extender, recording sender, MAC instances that yield in the middle of
+   Write) - every beacon handed to a sender is judged like a sequential call.
 3. BeaconingTrace.tla judges every call with BeaconingOps!ExtendOutcome / the C23 monitor.
 """
 import json
@@ -26,7 +29,7 @@ def run(c):
         trace = c.replay
     else:
         trace = c.scratch + "/beacon.ndjson"
-        c.run_driver(drv, ["-n", 3000 if c.thorough else 360, "-out", trace])
+        c.run_driver(drv, ["-n", 3000 if c.thorough else 360, "-conc", 12 if c.thorough else 3, "-out", trace])
     r = c.validate("BeaconingTrace", "BeaconingTrace.cfg", trace, timeout=3000)
     drift = _tlcout.renorm(r)
     c.judge_trace(r, trace)
